@@ -358,6 +358,14 @@ pub fn run(ctx: Arc<Ctx>) {
 		let rt = tokio::runtime::Builder::new_current_thread().build().unwrap();
 		for l in slr.iter() {
 			let bytes = codec::pm_encode(tiles, 2, 1, META, *l);
+			// the three tile counters of the header may be left at 0 ("unknown"): every third set is also opened that way
+			if i % 3 == 0 {
+				let mut anon = bytes.clone();
+				for b in &mut anon[72..96] {
+					*b = 0;
+				}
+				check_opened(ctxr, &rt, Cont::Pmtiles, &format!("pmtiles {l:?}, header counters left at 0, over {name}"), &Written::Bytes(anon), tiles, true, json!({"cont": "pmtiles", "layout": l, "set": name, "counters": "unknown"}));
+			}
 			check_opened(ctxr, &rt, Cont::Pmtiles, &format!("pmtiles {l:?} over {name}"), &Written::Bytes(bytes), tiles, true, json!({"cont": "pmtiles", "layout": l, "set": name}));
 			ctxr.nontrivial(fnv_str(&format!("pmS{l:?}{name}")));
 		}
